@@ -66,6 +66,8 @@ extern int (*env_write_override)(int fd, const void *buf, size_t n, ssize_t *ret
 extern int (*env_shutdown_hook)(int fd, int how);   /* return 1 if handled */
 /* shrink pipes created by the library to this many bytes (0 = leave) */
 extern int env_pipe_size;
+/* 1 (default): closing a descriptor the library did not create (or closed before) is a violation */
+extern int env_check_close;
 
 /* ---- descriptor classification (library-created descriptors) */
 enum { ENV_FD_NONE = 0, ENV_FD_EPOLL, ENV_FD_TIMERFD, ENV_FD_EVENTFD, ENV_FD_PIPE_R, ENV_FD_PIPE_W, ENV_FD_INOTIFY, ENV_FD_OTHER };
